@@ -202,10 +202,55 @@ class NativeSym(object):
         self._trace_on()
         self._limit = None if extra is None else self._cost + extra
 
-    def symbolic_fs(self, entries, root_name="root"):
-        """materialise the model's layout as a real directory tree"""
+    def _fs_materialise(self, prefix):
         import os
-        root = os.path.join(self.scratch_dir(), root_name)
+        import shutil
+        entries, root = self._fs_entries, self._fs_root
+        bits = {}
+        for i, rel in enumerate(sorted(entries)):
+            bits[rel] = bool(self._get("%s%d" % (prefix, i), False))
+        for rel in sorted(entries):
+            parent = os.path.dirname(rel)
+            if rel and parent in bits and bits[rel] and not bits[parent]:
+                self.bad_input.append("fs:" + rel)
+            if rel and parent == "" and "" in bits and bits[rel] and not bits[""]:
+                self.bad_input.append("fs:" + rel)
+        shutil.rmtree(root, True)
+        for rel in sorted(entries):
+            if not bits[rel]:
+                continue
+            p = os.path.join(root, rel) if rel else root
+            if entries[rel] is None:
+                os.makedirs(p, exist_ok=True)
+            else:
+                os.makedirs(os.path.dirname(p), exist_ok=True)
+                with open(p, "w") as f:
+                    f.write(entries[rel])
+        return bits
+
+    def fs_change(self):
+        self._fs_epoch += 1
+        return self._fs_materialise("fse%d_" % self._fs_epoch)
+
+    def symbolic_fs(self, entries, root_name="root", remote=False):
+        """materialise the model's layout as a real directory tree (served over HTTP on the loopback interface when remote)"""
+        import os
+        top = self.scratch_dir()
+        root = os.path.join(top, root_name)
+        self._fs_entries, self._fs_root, self._fs_epoch = dict(entries), root, 0
+        if remote:
+            import functools
+            import http.server
+            import threading
+
+            class Quiet(http.server.SimpleHTTPRequestHandler):
+                def log_message(self, *a):
+                    pass
+            srv = http.server.ThreadingHTTPServer(("127.0.0.1", 0), functools.partial(Quiet, directory=top))
+            threading.Thread(target=srv.serve_forever, daemon=True).start()
+            self._servers = getattr(self, "_servers", []) + [srv]
+            bits = self._fs_materialise("fs")
+            return "http://127.0.0.1:%d/%s" % (srv.server_address[1], root_name), bits
         bits = {}
         for i, rel in enumerate(sorted(entries)):
             bits[rel] = bool(self._get("fs%d" % i, False))
@@ -280,6 +325,9 @@ def run_native(fn, inputs, params):
         if getattr(sym, "_tracing", False):
             sys.settrace(None)
             sys.setprofile(None)
+        for srv in getattr(sym, "_servers", []):
+            srv.shutdown()
+            srv.server_close()
     import shutil
     for d in getattr(sym, "_scratch", []):
         shutil.rmtree(d, True)
